@@ -18,14 +18,27 @@ Words == { k[1] : k \in KeySet } \cup { T[k][1] : k \in KeySet }
          \cup (({ k[3] : k \in KeySet } \cup { T[k][3] : k \in KeySet }) \ {None})
          \cup ListedScripts \cup D.rtlLangs
 
-Init == \E w \in Words : sb \in { B(w), UpperSeq(B(w)), LowerSeq(B(w)) }
+(* words the library's own sources mention (VERIF_DICT, see MC_Dict.tla), and their   *)
+(* NEIGHBOURS: each word extended by a letter / a few letters / a digit, prefixed, and  *)
+(* shortened by one -- a special word matched by prefix, or a special word that should  *)
+(* have been matched exactly ("und" vs "undef")                                          *)
+DictRaw == JsonDeserialize(IOEnv.VERIF_DICT)
+DictWords == { DictRaw[n] : n \in 1..Len(DictRaw) }
+NearSuffixes == { B("a"), B("ef"), B("ers"), B("ulat"), B("ulate"), B("1"), B("Z") }
+Neighbours(w) == { w \o x : x \in NearSuffixes } \cup { x \o w : x \in { B("a"), B("Zz") } }
+                 \cup (IF Len(w) > 1 THEN { SubSeq(w, 1, Len(w) - 1) } ELSE {})
+DictNear == { v \in UNION { Neighbours(w) \cup {w} : w \in DictWords } : Len(v) <= 9 }
+
+Init == \/ \E w \in Words : sb \in { B(w), UpperSeq(B(w)), LowerSeq(B(w)) }
+        \/ \E v \in DictNear : sb \in { v, UpperSeq(v), LowerSeq(v) }
 Spec == Init /\ [][FALSE]_sb
 
 KindSeq == <<"language", "script", "region", "variant">>
 
 (* every CLDR word is a well-formed subtag of exactly the kinds its shape   *)
 (* allows, and the data spells it canonically                               *)
-WordsAreSubtags == \E k \in Kinds : IsKind(k, sb)
+WordBytesLower == { LowerSeq(B(w)) : w \in Words }       \* evaluated once (a constant definition)
+WordsAreSubtags == (LowerSeq(sb) \in WordBytesLower) => \E k \in Kinds : IsKind(k, sb)
 CanonFix == \A k \in Kinds : IsKind(k, sb) =>
                LET c == CanonKind(k, sb) IN IsKind(k, c) /\ CanonKind(k, c) = c /\ UnLE(LE(c, WidthOf(k))) = c
 
